@@ -706,6 +706,11 @@ class ReadSetReader:
             assert variant.position - left_ref_bases >= 0
             assert variant.position + right_ref_bases <= len(reference)
 
+            if right_ref_bases < len(variant.reference_allele):
+                # The alignment ends inside the variant: the window holds only a prefix of
+                # the reference allele and cannot be compared with the full-length alleles
+                return None, None
+
             query = bam_read.query_sequence[
                 query_pos - left_query_bases : query_pos + right_query_bases
             ]
